@@ -522,7 +522,9 @@ func (pkgGen *HttpPackageGenerator) updateMiddlewareReg(router interface{}, midd
 		if pkgGen.SnakeStyleMiddleware {
 			mwNamePattern = fmt.Sprintf(" %s_mw", mw)
 		}
-		if bytes.Contains(file, []byte(mwNamePattern)) {
+		// the default templates name the function <mw>Mw in snake style too: a function that is already
+		// there under that name must not be appended a second time
+		if bytes.Contains(file, []byte(mwNamePattern)) || bytes.Contains(file, []byte(fmt.Sprintf(" %sMw(", mw))) {
 			continue
 		}
 		middlewareSingleTpl := pkgGen.tpls[middlewareSingleTplName]
